@@ -147,6 +147,7 @@ impl Fns {
 "##.to_string())]));
 
     c.push(("module-doc-trailing-empty", vec![("m", "//! first\n//!\npub type T { pub a: u32 }\n".to_string())]));
+    c.push(("module-doc-only-empty", vec![("m", "//!\npub type T { pub a: u32 }\n".to_string())]));
     c.push(("module-doc-leading-empty", vec![("m", "//!\n//! second\npub type T { pub a: u32 }\n".to_string())]));
 
     c.push(("functions", vec![("m", r##"
